@@ -17,7 +17,8 @@ LEVEL = "exploration"
 RULE = ("values from a recursive seeded generator (bytes/str incl. non-BMP, ints of any sign up to 4000 digits, bool, None, float "
         "incl. inf/-0.0/nan, containers nested to depth 4, subclasses of int/str/bytes/list/dict, dataclass and __slots__ "
         "objects, sizes straddling each threshold, incompressible and highly compressible data) x pickle protocols 0..5 x "
-        "min_compress_len {0,1,10,400} x codecs {zlib, bz2, lzma, identity} + LegacyWrappingSerde. Non-trivial = value is not a "
+        "min_compress_len {0,1,10,400} x codecs {zlib, bz2, lzma, identity} + LegacyWrappingSerde; + one serde object shared by two "
+        "serializations in progress at once (re-entrant, and two threads with a forced interleaving). Non-trivial = value is not a "
         "short ASCII bytes/str; distinct by (type shape, size class, serde configuration).")
 ASSUMPTIONS = [
     "a str serialized form is transmitted by the client as str(form).encode('ascii') (what _store_cmd does with the default encoding)",
@@ -219,6 +220,77 @@ def legacy(res, st, rng):
         res.case(("legacy2", valuegen.shape(v)))
 
 
+def shared_serde(res, st, rng, tier):
+    """One serde object is shared by everything that uses a client (and by every thread of a PooledClient): a serialize
+    that starts while another one on the same object is in the middle of its dump must not disturb it.  Interleavings
+    are forced, not hoped for: the outer value's __reduce__ runs the inner serialize (same thread), or releases a
+    second thread and waits until that thread's whole serialize+deserialize is done."""
+    import threading
+    from pymemcache import serde
+    mk = {
+        "PickleSerde": lambda proto: serde.PickleSerde(pickle_version=proto),
+        "CompressedSerde": lambda proto: serde.CompressedSerde(serde=serde.PickleSerde(pickle_version=proto), min_compress_len=10),
+        "pickle_serde": lambda proto: serde.pickle_serde,
+        "LegacyWrappingSerde": lambda proto: serde.LegacyWrappingSerde(serde.python_memcache_serializer, serde.python_memcache_deserializer),
+    }
+    for label, make in mk.items():
+        for proto in range(0, 6):
+            for mode in ("reentrant", "two-threads"):
+                sd = make(proto)
+                inner_v = {"inner": [rng.randrange(1000), "x" * rng.randrange(0, 50)], "t": (1, 2.5, None)}
+                outer_v = ["before", valuegen.Hooked("h", rng.randrange(1000)), "after" * rng.randrange(1, 30), {"k": b"v"}]
+                seen = {}
+
+                def other(sd=sd, inner_v=inner_v, seen=seen):
+                    try:
+                        f, fl = sd.serialize("other", inner_v)
+                        seen["inner_back"] = sd.deserialize("other", wire(f), fl)
+                    except Exception as e:
+                        seen["inner_exc"] = e
+                if mode == "reentrant":
+                    valuegen.Hooked.hooks = {"h": other}
+                else:
+                    inside, done = threading.Event(), threading.Event()
+
+                    def hook():
+                        inside.set()
+                        seen["other_finished_in_time"] = done.wait(5)
+
+                    def thread_body():
+                        if inside.wait(5):
+                            other()
+                        done.set()
+                    valuegen.Hooked.hooks = {"h": hook}
+                    th = threading.Thread(target=thread_body, daemon=True)
+                    th.start()
+                case = ("shared", label, proto, mode)
+                try:
+                    form, flags = sd.serialize("outer", outer_v)
+                    valuegen.Hooked.hooks = {}
+                    back = sd.deserialize("outer", wire(form), flags)
+                except Exception as e:
+                    valuegen.Hooked.hooks = {}
+                    res.violation("shared-serde-raises:%s:%s" % (label, mode), "%s (protocol %d), %s: %r" % (label, proto, mode, e), case)
+                    back = outer_v
+                if mode == "two-threads":
+                    th.join(10)
+                    if not seen.get("other_finished_in_time"):
+                        res.count("shared_serde_interleavings_not_obtained")     # e.g. serialize is guarded by a lock
+                        continue
+                res.count("shared_serde_interleavings")
+                res.count("round_trips", 2)
+                if "inner_exc" in seen:
+                    res.violation("shared-serde-raises:%s:%s" % (label, mode), "inner serialize raised %r" % (seen["inner_exc"],), case)
+                elif not valuegen.same(seen.get("inner_back"), inner_v):
+                    res.violation("shared-serde-mixes-values:%s:%s" % (label, mode),
+                                  "%s: the value serialised in the middle of another dump came back as %s" % (label, _sh(seen.get("inner_back"))), case)
+                if not valuegen.same(back, outer_v):
+                    res.violation("shared-serde-mixes-values:%s:%s" % (label, mode),
+                                  "%s (protocol %d): a serialize interrupted (%s) by another serialize on the same serde object came "
+                                  "back as %s instead of %s" % (label, proto, mode, _sh(back), _sh(outer_v)), case)
+                res.case(case)
+
+
 def shard(tier, seed, idx, n):
     res = common.Result()
     st = install(res)
@@ -244,6 +316,8 @@ def shard(tier, seed, idx, n):
         run_value(res, st, v, rng, tier, full=(i % 10 == 0))
     if idx == 0:
         legacy(res, st, rng)
+    if idx == 1 % n:
+        shared_serde(res, st, rng, tier)
     return res
 
 
@@ -258,6 +332,8 @@ def replay(case):
         round_trip(res, st, "PickleSerde", serde.PickleSerde(pickle_version=case[1]), case[2], None, case)
     elif kind == "compressed":
         check_compressed(res, st, case[4], case[1], case[2], case[3], case)
+    elif kind == "shared":
+        shared_serde(res, st, random.Random(0), "quick")
     res.case(case)
     for c in REQUIRED_COUNTERS:
         res.count(c)
